@@ -219,6 +219,81 @@ pub fn run(ctx: &Ctx) -> PropResult {
         };
         judge_dt_pair(rec, (a_day, a_tod), (b_day, b_tod), tag);
     }));
+    // calendar-aligned pairs at ANY distance over the whole range: a on the same day of the month as b, k months away
+    // with k from 1 … 30, whole years, centuries, 400-year cycles (4 800 months), powers of two and anything up to
+    // the width of the range; the times of day as in the window workload (equal, ±1 ns, the same second with another
+    // sub-second part, midnight, random).  A shortcut through elapsed time (whole 400-year cycles, average month
+    // lengths) agrees with the calendar everywhere except at such anniversaries.
+    wls.push(Workload::cases("anniversary_pairs_any_distance", ctx.count(150_000, 3_000_000), move |rec, _idx, rng| {
+        let lo = cal::MIN_DAY + 40;
+        let hi = cal::MAX_DAY - 40;
+        let b_day = match rng.below(3) {
+            0 => rng.range_i64(cal::days_from_civil(1600, 1, 1), cal::days_from_civil(2400, 12, 31)),
+            1 => rng.range_i64(-400_000, 400_000),
+            _ => rng.range_i64(lo, hi),
+        };
+        let sign = if rng.chance(1, 2) { 1 } else { -1 };
+        let k: i64 = sign * match rng.below(8) {
+            0 => rng.range_i64(1, 30),
+            1 => 12 * rng.range_i64(1, 120),
+            2 => 1_200 * rng.range_i64(1, 40),
+            3 => 4_800 * rng.range_i64(1, 12),
+            4 => 4_800 * rng.range_i64(1, 2_400),
+            5 => 1i64 << rng.range_i64(0, 27),
+            6 => 4_800 * rng.range_i64(1, 400) + *rng.pick(&[-1i64, 1, 12, -12]),
+            _ => rng.range_i64(1, 141_000_000),
+        };
+        let a_day = cal::shift_months(b_day, k);
+        if a_day < lo || a_day > hi {
+            rec.bin("anniversary/outside-the-range(skipped)");
+            return;
+        }
+        // sometimes one day off the anniversary
+        let a_day = if rng.chance(1, 6) { a_day + *rng.pick(&[-1i64, 1]) } else { a_day };
+        rec.bin(if k % 4_800 == 0 { "anniversary/whole-400-year-cycles" } else if k % 12 == 0 { "anniversary/whole-years" } else { "anniversary/months" });
+        let b_tod = match rng.below(3) {
+            0 => 0,
+            1 => rng.range_i128(0, D - 1),
+            _ => *rng.pick(&[1i128, D - 1, D / 2]),
+        };
+        let subs = |rng: &mut Rng| -> i128 { match rng.below(3) { 0 => *rng.pick(&[0i128, 1, 999, 1_000, 1_001, 999_999, 1_000_000, 1_000_001, 499_999_999, 500_000_000, 999_000_000, 999_999_000, 999_999_999]), 1 => rng.range_i128(0, 999) * 1_000_000 + rng.range_i128(0, 999_999), _ => rng.range_i128(0, NS - 1) } };
+        match rng.below(7) {
+            5 | 6 => {
+                let sec = (b_tod / NS) * NS;
+                let b2 = sec + subs(rng);
+                let a2 = sec + subs(rng);
+                judge_dt_pair(rec, (a_day, a2), (b_day, b2), "dt/anniversary/same-second-other-subsecond");
+            }
+            0 => judge_dt_pair(rec, (a_day, 0), (b_day, b_tod), "dt/anniversary/a-at-midnight"),
+            1 => judge_dt_pair(rec, (a_day, b_tod), (b_day, b_tod), "dt/anniversary/equal-time"),
+            2 => judge_dt_pair(rec, (a_day, (b_tod - 1).max(0)), (b_day, b_tod), "dt/anniversary/a-1ns-before-b-time"),
+            3 => judge_dt_pair(rec, (a_day, (b_tod + 1).min(D - 1)), (b_day, b_tod), "dt/anniversary/a-1ns-after-b-time"),
+            _ => judge_dt_pair(rec, (a_day, rng.range_i128(0, D - 1)), (b_day, b_tod), "dt/anniversary/random-time"),
+        }
+        // the same pair as Dates
+        if rng.chance(1, 3) {
+            if let (Some(ad), Some(bd)) = (sane_date(a_day), sane_date(b_day)) {
+                rec.eval();
+                rec.api("Date::months_since");
+                let r = trap(|| (ad.months_since(&bd), ad.years_since(&bd), bd.months_since(&ad), bd.years_since(&ad)));
+                let (later, earlier, sg) = if a_day >= b_day { (a_day, b_day, 1i64) } else { (b_day, a_day, -1) };
+                match r {
+                    Err(p) => rec.violation(format!("C07|dates|months_since/years_since|panic|{},{}", p.class, p.site()), || json!({"a_day": a_day, "b_day": b_day, "panic": p.to_json()})),
+                    Ok((m_ab, y_ab, m_ba, y_ba)) => {
+                        if m_ab != -m_ba || y_ab != -y_ba {
+                            rec.violation("C07|dates|Date::months/years_since|not-antisymmetric|anniversary".to_string(), || json!({"a_day": a_day, "b_day": b_day, "m_ab": m_ab, "m_ba": m_ba, "y_ab": y_ab, "y_ba": y_ba}));
+                        }
+                        if dom(earlier) <= 28 {
+                            let n = model_months((later, 0), (earlier, 0));
+                            if m_ab as i64 != sg * n || y_ab as i64 != sg * (n / 12) {
+                                rec.violation(format!("C07|dates|Date::months/years_since|wrong-value|anniversary,observed-expected={}", (m_ab as i64 - sg * n).clamp(-3, 3)), || json!({"a": format!("{:?}", cal::ymd(a_day)), "b": format!("{:?}", cal::ymd(b_day)), "months_since": m_ab, "years_since": y_ab, "expected_months": sg * n}));
+                            }
+                        }
+                    }
+                }
+            }
+        }
+    }));
     // every case on a brand-new thread: the pair is the first thing that thread ever asks (per-thread memo state empty)
     wls.push(Workload::cases("fresh_thread_first_pair", ctx.count(1_500, 40_000), move |rec, idx, rng| {
         let b_day = match rng.below(4) {
@@ -246,14 +321,14 @@ pub fn run(ctx: &Ctx) -> PropResult {
     let mut meta = PropMeta::default();
     meta.exhaustive = !quick;
     meta.rule = format!(
-        "{} ordered pairs of Dates inside three windows (2019-12-01…2024-03-31 with a leap day; −3-01-01…3-12-31 across the era boundary; 1899-06…1901-06 across a common century year){}: per earlier-date b every a ascending — value (model month shift, only when the earlier date's day of month ≤ 28), antisymmetry, monotonicity in a, years = trunc(months/12). DateTime pairs in the same windows with times {{00:00, equal, ±1 ns around b's time, random}} and far-apart random pairs over the whole range. Non-trivial = same-month, borrow, era-straddling and same-day pairs (Dates); every DateTime pair. Distinct by input hash. Fresh-thread workload: every pair is the first thing a brand-new thread asks (earlier date on 0001-01-01, ±1 day, leap days, range ends …). Offset::Local twins (pairs) for months_since / years_since, incl. anniversaries ± a few hours in real zones. DateTime pairs inside one second of the day with independently structured sub-second parts (digit groups 0/1/999/1000/999999/10^6…).",
+        "{} ordered pairs of Dates inside three windows (2019-12-01…2024-03-31 with a leap day; −3-01-01…3-12-31 across the era boundary; 1899-06…1901-06 across a common century year){}: per earlier-date b every a ascending — value (model month shift, only when the earlier date's day of month ≤ 28), antisymmetry, monotonicity in a, years = trunc(months/12). DateTime pairs in the same windows with times {{00:00, equal, ±1 ns around b's time, random}} and far-apart random pairs over the whole range. Non-trivial = same-month, borrow, era-straddling and same-day pairs (Dates); every DateTime pair. Distinct by input hash. Fresh-thread workload: every pair is the first thing a brand-new thread asks (earlier date on 0001-01-01, ±1 day, leap days, range ends …). Offset::Local twins (pairs) for months_since / years_since, incl. anniversaries ± a few hours in real zones. DateTime pairs inside one second of the day with independently structured sub-second parts (digit groups 0/1/999/1000/999999/10^6…). Anniversary pairs at any distance over the whole range: a on b's day of the month k months away (k = 1…30, whole years, centuries, whole 400-year cycles, 2^j, anything up to the width of the range; sometimes one day off), times of day equal / ±1 ns / same second with another sub-second part / midnight / random; also as Dates.",
         if quick { "all" } else { "ALL" },
         if quick { " — quick: 400-day sub-windows around the leap day / era boundary" } else { "" }
     );
     meta.required_bins = vec![
         "local-twin/judged", "local-twin/synthetic-fixed-zone", "local-twin/real-zone-with-transitions",
         "pair/same-day", "pair/straddles-era", "pair/same-month", "pair/same-year-day-borrow", "pair/year-borrow", "pair/multi-year",
-        "value-claim/checked", "value-claim/skipped-dom>28", "dt/equal-time", "dt/a-1ns-before-b-time", "dt/a-1ns-after-b-time", "dt/far-apart",
+        "value-claim/checked", "value-claim/skipped-dom>28", "anniversary/whole-400-year-cycles", "anniversary/whole-years", "anniversary/months", "dt/anniversary/same-second-other-subsecond", "dt/anniversary/equal-time", "dt/equal-time", "dt/a-1ns-before-b-time", "dt/a-1ns-after-b-time", "dt/far-apart",
     ];
     meta.assumptions = vec!["month shift of the reference is the harness calendar model's (not the library's add_months)".into()];
     let _ = DateTime::default();
